@@ -72,15 +72,14 @@ Definition e37_step (s : sess) (e : sevent) : option (sess * list sout) :=
       else if stype =? ST_SELECT_RSP then
         if is_waiting s system ST_SELECT_REQ then
           Some ({| st := (if (status =? 0) && sstate_eqb cur NotSelected then Selected else cur); waiting := drop s system; closing := closing s |}, [OutResolve system])
-        else if any_waiting s system then None      (* a response of another type to an open transaction: not prescribed *)
-        else Some (s, [])
+        else Some (s, [])      (* no Select.req of ours is open under these system bytes (a request of another type is none): no effect *)
       else if stype =? ST_DESELECT_RSP then
         if is_waiting s system ST_DESELECT_REQ then
           Some ({| st := (if (status =? 0) && sstate_eqb cur Selected then NotSelected else cur); waiting := drop s system; closing := closing s |}, [OutResolve system])
-        else if any_waiting s system then None
         else Some (s, [])
       else if stype =? ST_LINKTEST_RSP then
-        if any_waiting s system then Some ({| st := cur; waiting := drop s system; closing := closing s |}, [OutResolve system]) else Some (s, [])
+        (* the response to an open Linktest.req, to nothing else *)
+        if is_waiting s system ST_LINKTEST_REQ then Some ({| st := cur; waiting := drop s system; closing := closing s |}, [OutResolve system]) else Some (s, [])
       else if stype =? ST_REJECT then
         (* Reject.req naming an open transaction ends that transaction: its requester is told; otherwise it is only noted *)
         if any_waiting s system then Some ({| st := cur; waiting := drop s system; closing := closing s |}, [OutResolve system]) else Some (s, [])
